@@ -162,6 +162,7 @@ type Frame struct {
 	retOverride *T        // set by clampSelect for `if a < b { return a }; return b`
 	noAdv       bool      // on return do not advance the caller's pc (deferred call)
 	depth       int
+	refunds     int // loop-header visits not counted because the facts alone decided the loop test (known trip count)
 }
 
 func (f *Frame) clone() *Frame {
@@ -1035,6 +1036,12 @@ func (ev *Evaluator) runState(st *State) (*Path, []*State) {
 				continue
 			}
 			r := st.Facts.Truth(ev.TS, c)
+			if r != triU && fr.visits[fr.block] > 1 && fr.refunds < 12 {
+				// a loop whose test the facts decide (a range over a table of known length) runs a known number of
+				// times: entering its header again is not exploration, and is not charged against the loop bound
+				fr.visits[fr.block]--
+				fr.refunds++
+			}
 			if r == triU {
 				other := st.clone()
 				if other.Facts.Assume(ev.TS, c, false) {
@@ -1916,8 +1923,8 @@ func (ev *Evaluator) doCall(st *State, fr *Frame, c *ssa.CallCommon, instr ssa.I
 			}
 			// a function literal called by the function that defines it (a local helper) is part of that function
 			// ... and so is one handed to a helper that is being evaluated in line and calls it while the defining
-			// function is still running (doLocked(func() { … }))
-			if !inline && !isDefer && callee.Parent() != nil && (onlyCalled(e.FnTerm) || (fr.fn != callee.Parent() && !ev.Cfg.KeepHandedClosures)) {
+			// function is still running (doLocked(func() { … })), or kept in a local table and called from there
+			if !inline && !isDefer && callee.Parent() != nil && (onlyCalled(e.FnTerm) || !ev.Cfg.KeepHandedClosures) {
 				for _, f := range st.frames[st.base:] {
 					if f.fn == callee.Parent() {
 						inline = true
